@@ -723,3 +723,219 @@ def check_C15(tier, seed, replay=None):
                samples=[dict(cls=bytes(g.N(g.rules[0])["want"]).decode()) for g in groups[:: max(1, len(groups) // 8)][:8]],
                classes=len(classes), decisions_compared=npairs, violating=nviol, exhaustive=False)
     return run.finish("translation_validation", cov, ["real-vs-real as the statement says; the verdict does not depend on any model of case folding"])
+
+
+# ------------------------------------------------------------------------------------------
+def unicode_class_names():
+    import re
+    src = open(os.path.join(P.REPO, "unicode_classes.go")).read()
+    return re.findall(r'^\s*"(\w+)":\s*true', src, re.M)
+
+
+def c04_groups(seed, tier):
+    from peg import Gram
+    rng = random.Random(seed)
+    groups = []
+
+    def add(g):
+        g.disp = [""] * len(g.rules)
+        g.compute_args()
+        g.maydiverge = False
+        groups.append(g)
+        return g
+    # (a) adversarial rule names: one a prefix+digits of the other, blocks at many expression indices
+    for t in range(6 if tier == "quick" else 30):
+        g = Gram(len(groups) + 1)
+        pre = "N%d" % g.gi
+        names = rng.sample(["A", "A1", "A11", "B", "B_1", "B_", "A_1", "a1", "Ab2"], 4)
+        g.idents = [pre + n for n in names]
+        roots = []
+        for ri in range(4):
+            items = []
+            for j in range(rng.randint(1, 6)):
+                e = g.lit([F.A + j % 3])
+                if rng.random() < 0.5:
+                    e = g.action(e)
+                items.append(e)
+            if ri < 3 and rng.random() < 0.7:
+                items.append(g.ref(ri + 2))
+            roots.append(g.seq(items) if len(items) > 1 else items[0])
+        g.rules = roots
+        add(g)
+    # (b) labels in every scoping construct, shared between alternatives, nested
+    cfg = F.RandCfg(depth=4, maxrules=3, preds=True, state=True, cloner=True, throw=True)
+    for i in range(25 if tier == "quick" else 150):
+        g = F.random_group(rng, len(groups) + 1, cfg)
+        groups.append(g)
+    cfg2 = F.RandCfg(depth=4, maxrules=3, preds=True, throw=True)
+    nostate = []
+    for i in range(15 if tier == "quick" else 60):
+        g = F.random_group(rng, len(groups) + 1, cfg2)
+        groups.append(g)
+        nostate.append(g)
+    # (c) every Unicode class name the front-end accepts
+    ucl = unicode_class_names()
+    g = Gram(len(groups) + 1)
+    roots = []
+    for u in ucl:
+        txt = "[\\p{%s}]" % u
+        roots.append(g.mk(k="cls", want=list(txt.encode())))
+    for u in "LMNCPZS":
+        roots.append(g.mk(k="cls", want=list(("[\\p%s]" % u).encode())))
+    g.rules = [g.choice([g.ref(i + 2) for i in range(len(roots))])] + roots
+    add(g)
+    nostate.append(g)
+    return groups, nostate, len(ucl)
+
+
+def check_C04(tier, seed, replay=None):
+    """every accepted grammar yields Go code that compiles, vets and initialises; one method per block with its scope's labels"""
+    import itertools, re, subprocess, shutil, findings
+    from peg import Gram, dump_groups, pack_text
+    run = Run("C04", tier, seed)
+    rng = random.Random(seed)
+    groups, nostate, nucl = c04_groups(seed, tier)
+    lrg = F.lr_groups(seed, 3, gi0=len(groups) + 1)
+    allg = groups + lrg
+    # known-finding witnesses (single-group packs)
+    wit = {}
+    g = Gram(len(allg) + 1)          # F13: A idx 11 vs A1 idx 1
+    g.idents = ["WA", "WA1"]
+    g.rules = [g.seq([g.lit([F.A + i]) for i in range(9)] + [g.action(g.lit([F.B]))]), g.action(g.lit([F.A]))]
+    g.disp = ["", ""]
+    g.compute_args()
+    allg.append(g)
+    wit[g.gi] = "F13"
+    g = Gram(len(allg) + 1)          # F14: inlining a rule that contains a label
+    g.rules = [g.action(g.seq([g.ref(2), g.ref(2)])), g.action(g.label(g.lit([F.A]), "a"))]
+    g.disp = ["", ""]
+    g.compute_args()
+    allg.append(g)
+    wit[g.gi] = "F14"
+    base = ["-optimize-parser", "-optimize-grammar", "-optimize-basic-latin", "-support-left-recursion", "-nolint", "-cache", "-receiver-name=x"]
+    combos = [list(c) for r in range(len(base) + 1) for c in itertools.combinations(base, r)]
+    if tier == "quick":
+        must = [[], base, ["-optimize-grammar"], ["-receiver-name=x"], ["-optimize-parser", "-optimize-grammar"], ["-support-left-recursion"]]
+        rest = [c for c in combos if c not in must]
+        rng.shuffle(rest)
+        combos = must + rest[:10]
+    pigeon = P.build_pigeon()
+    jobs = []       # (name, groups, flags)
+    for ci, fl in enumerate(combos):
+        jobs.append(("main", groups, fl))
+        jobs.append(("nostate", nostate, fl))
+        if "-support-left-recursion" in fl:
+            jobs.append(("lr", lrg, fl))
+    for gi, fid in wit.items():
+        jobs.append(("wit" + fid, [allg[gi - 1]], ["-optimize-grammar"] if fid == "F14" else []))
+
+    def do(job, single=False):
+        name, gs, fl = job
+        recv = "x" if "-receiver-name=x" in fl else "c"
+        for g in gs:
+            g.recv = recv
+        txt = pack_text(gs)
+        for g in gs:
+            g.recv = "c"
+        fl2 = list(fl)
+        if "-optimize-grammar" in fl:
+            fl2 += ["-alternate-entrypoints", ",".join(g.sname() for g in gs)]
+        v = P.Variant(id(job) % 100000 + rng.randint(0, 10**6), name, gs, fl2, peg_text=txt)
+        res = dict(job=job, v=v, stage="ok", err="")
+        if not v.generate(pigeon):
+            res.update(stage="generate", err=v.gen_err)
+            return res
+        fm = P.sh(["gofmt", "-l", "g.go"], cwd=v.dir, check=False)
+        if fm.stdout.strip() or fm.returncode != 0:
+            res.update(stage="gofmt", err=(fm.stdout + fm.stderr).decode()[-500:])
+            return res
+        if not v.build():
+            res.update(stage="build", err=v.build_err)
+            return res
+        vt = P.sh(["go", "vet", "."], cwd=v.dir, check=False, timeout=900)
+        if vt.returncode != 0:
+            res.update(stage="vet", err=(vt.stderr + vt.stdout).decode(errors="replace")[-1500:])
+            return res
+        try:
+            v.run([[]], [opt()], [])     # package initialisation only (every rangeTable(class) call)
+        except P.Inconclusive as e:
+            res.update(stage="init", err=str(e)[-800:])
+            return res
+        src = open(os.path.join(v.dir, "g.go")).read()
+        res["methods"] = re.findall(r"^func \(%s \*current\) (on\w+)\(([^)]*)\)" % recv, src, re.M)
+        return res
+    results = P.parallel(do, jobs, workers=16)
+    failures = []
+    for r in results:
+        if r["stage"] != "ok":
+            name, gs, fl = r["job"]
+            if len(gs) > 1:         # bisect: which groups fail alone
+                sub = P.parallel(lambda g: do((name, [g], fl)), gs, workers=16)
+                bad = [s for s in sub if s["stage"] != "ok"]
+                failures += bad if bad else [r]
+            else:
+                failures.append(r)
+    confirmed = set()
+    nviol = 0
+    for r in failures:
+        name, gs, fl = r["job"]
+        g = gs[0]
+        fid = None
+        if len(gs) == 1:
+            if r["stage"] == "build" and ("already declared" in r["err"] or "redeclared" in r["err"]) and g.idents:
+                fid = "F13"      # shape confirmed below by Builder.tla (names-clash)
+            if r["stage"] == "build" and "-optimize-grammar" in fl and ("duplicate argument" in r["err"] or "redeclared" in r["err"]) and \
+                    any(n["k"] == "label" for n in g.nodes):
+                fid = "F14"
+        if fid:
+            confirmed.add(fid)
+            continue
+        nviol += 1
+        if nviol <= 25:
+            rd = os.path.join(P.VERIF, "replays", "C04")
+            os.makedirs(rd, exist_ok=True)
+            import hashlib
+            rp = os.path.join(rd, "%s_%s.json" % (r["stage"], hashlib.sha1((g.text() + " ".join(fl)).encode()).hexdigest()[:10]))
+            json.dump(dict(property="C04", stage=r["stage"], flags=fl, grammar="\n".join(x.text() for x in gs[:3]), error=r["err"]), open(rp, "w"), indent=1)
+            run.violation(rp, "stage=%s flags=%s" % (r["stage"], " ".join(fl)))
+    # method sets vs Builder.tla (not for -optimize-grammar: the AST is rewritten before the builder runs)
+    lines = []
+    gp = os.path.join(P.workdir(), "groups.ndjson")
+    dump_groups(allg, gp)
+    for r in results:
+        name, gs, fl = r["job"]
+        if r["stage"] != "ok" or "-optimize-grammar" in fl:
+            continue
+        by = {}
+        for (mn, params) in r["methods"]:
+            ps = [p.strip() for p in params.replace(" any", "").split(",") if p.strip()]
+            by.setdefault(mn, ps)
+        for g in gs:
+            ms = [[mn, ps] for mn, ps in by.items() if any(mn.startswith("on" + idn) and mn[len("on" + idn):].isdigit() for idn in [g.rname(i + 1) for i in range(len(g.rules))])]
+            lines.append(json.dumps(dict(gi=g.gi, vi=combos.index(fl) + 1 if fl in combos else 0, methods=ms)) + "\n")
+    for gi, fid in wit.items():
+        if fid == "F13":
+            lines.append(json.dumps(dict(gi=gi, vi=0, methods=[])) + "\n")
+    tcase = dict(inputs=[[]], options=[opt()])
+    div, tot = P.validate_t1(gp, tcase, [], shards=8, module="Builder", obsname="methods.ndjson", lines=lines, min_chunk=100)
+    for d in div:
+        if d["gi"] in wit and d["df"] == "names-clash":
+            confirmed.add("F13model")
+            continue
+        nviol += 1
+        rd = os.path.join(P.VERIF, "replays", "C04")
+        os.makedirs(rd, exist_ok=True)
+        rp = os.path.join(rd, "%s_g%d.json" % (d["df"], d["gi"]))
+        json.dump(dict(property="C04", divergence=d, grammar=allg[d["gi"] - 1].text()), open(rp, "w"), indent=1)
+        run.violation(rp, "df=%s gi=%d" % (d["df"], d["gi"]))
+    for fid in ("F13", "F14"):
+        if fid in confirmed:
+            run.known.append("%s: %s" % (fid, findings.what(fid)))
+        else:
+            run.notes.append("known finding %s: witness no longer fails" % fid)
+    cov = dict(evaluations=len(jobs), distinct_nontrivial=len(allg),
+               rule="grammars with adversarial rule names (one name = another + digits), labels in every scoping construct (random, with predicates/state/throw), ALL %d Unicode class names of unicode_classes.go plus the 7 single-letter classes, left-recursive towers; x flag combinations out of the 2^7 of {-optimize-parser,-optimize-grammar,-optimize-basic-latin,-support-left-recursion,-nolint,-cache,-receiver-name=x} x {with, without state blocks}; per combination: pigeon exit 0, gofmt -l clean, go build, go vet, package initialisation; the method set (name, parameter list) extracted from the generated file is validated by TLC against Builder.tla; a failing pack is bisected into single-group packages" % nucl,
+               samples=[dict(flags=j[2], pack=j[0]) for j in jobs[:4]],
+               flag_combinations=len(combos), packages_built=len(jobs), unicode_classes=nucl + 7, method_sets_validated=tot["n"],
+               states=tot["states"], transitions=tot["transitions"], failures_bisected=len(failures), violating=nviol)
+    return run.finish("exploration", cov, ["the Go toolchain's verdict is the observation; Builder.tla predicts names and parameters only for the unoptimised AST"])
